@@ -65,7 +65,7 @@ pub fn game_ending(
         return Some(GameEnding::Draw);
     }
 
-    if board.halfmove_clock() >= 50 {
+    if board.halfmove_clock() >= 100 {
         return Some(GameEnding::Draw);
     }
 
